@@ -430,6 +430,28 @@ def same_value(a, b):
     return type(a) == type(b) and a == b
 
 
+def filled(v, t):
+    """The declared default as `value_from_ast` completes it: input-object fields that are absent take the
+    field's own default (that completion is the coercion's business — ledger H2 — not introspection's), and a
+    single value at a list type stands for the one-element list."""
+    from py_gql.schema import InputObjectType, ListType, NonNullType
+    if isinstance(t, NonNullType):
+        return filled(v, t.type)
+    if v is None:
+        return None
+    if isinstance(t, ListType):
+        return [filled(x, t.type) for x in v] if isinstance(v, (list, tuple)) else [filled(v, t.type)]
+    if isinstance(t, InputObjectType) and isinstance(v, dict):
+        out = {}
+        for f in t.fields:
+            if f.name in v:
+                out[f.python_name] = filled(v[f.name], f.type)
+            elif f.has_default_value:
+                out[f.python_name] = f.default_value
+        return out
+    return v
+
+
 def default_roundtrips(text, live_type, declared):
     """`text` is GraphQL syntax that parses back (real parse_value + value_from_ast) to `declared`.
     -> (True, None) | (False, reason)"""
@@ -448,7 +470,7 @@ def default_roundtrips(text, live_type, declared):
         v = value_from_ast(node, live_type)
     except Exception as e:  # noqa
         return False, "coercion-" + type(e).__name__
-    if not same_value(v, declared):
+    if not same_value(v, declared) and not same_value(v, filled(declared, live_type)):
         return False, "different-value"
     return True, None
 
